@@ -183,7 +183,7 @@ pub fn by_hash<const N: u32, X: P, H: core::hash::Hasher>(a: &X, h: &mut H) {
 // ---------------------------------------------------------------------------------------------
 // Rec: a Hasher that records the exact byte feed
 // ---------------------------------------------------------------------------------------------
-pub const REC_CAP: usize = 32;
+pub const REC_CAP: usize = 16;
 #[derive(Clone, Copy)]
 pub struct Rec {
     pub buf: [u8; REC_CAP],
@@ -299,3 +299,91 @@ impl Gen for R {
         R(s.u8())
     }
 }
+
+// ---------------------------------------------------------------------------------------------
+// W: every operator in every owned / reference form, non-commutative, total, call-recording
+// ---------------------------------------------------------------------------------------------
+#[derive(Debug, PartialEq, Eq)]
+pub struct W(pub u8);
+impl Gen for W {
+    fn gen<S: Src>(s: &mut S) -> Self {
+        W(s.u8())
+    }
+}
+/// the (non-commutative) result of operator `code` on payloads a, b
+pub fn wop(code: u8, a: u8, b: u8) -> u8 {
+    a.wrapping_mul(3).wrapping_add(b).wrapping_add(code)
+}
+fn wbin(code: u8, a: u8, b: u8) -> W {
+    trace_push(code, a, b);
+    W(wop(code, a, b))
+}
+pub const ASSIGN: u8 = 16;
+macro_rules! w_bin {
+    ($tr:ident, $f:ident, $tra:ident, $fa:ident, $code:expr) => {
+        impl core::ops::$tr<W> for W {
+            type Output = W;
+            fn $f(self, r: W) -> W {
+                wbin($code, self.0, r.0)
+            }
+        }
+        impl<'b> core::ops::$tr<&'b W> for W {
+            type Output = W;
+            fn $f(self, r: &'b W) -> W {
+                wbin($code, self.0, r.0)
+            }
+        }
+        impl<'a> core::ops::$tr<W> for &'a W {
+            type Output = W;
+            fn $f(self, r: W) -> W {
+                wbin($code, self.0, r.0)
+            }
+        }
+        impl<'a, 'b> core::ops::$tr<&'b W> for &'a W {
+            type Output = W;
+            fn $f(self, r: &'b W) -> W {
+                wbin($code, self.0, r.0)
+            }
+        }
+        impl core::ops::$tra<W> for W {
+            fn $fa(&mut self, r: W) {
+                trace_push($code + ASSIGN, self.0, r.0);
+                self.0 = wop($code + ASSIGN, self.0, r.0);
+            }
+        }
+        impl<'b> core::ops::$tra<&'b W> for W {
+            fn $fa(&mut self, r: &'b W) {
+                trace_push($code + ASSIGN, self.0, r.0);
+                self.0 = wop($code + ASSIGN, self.0, r.0);
+            }
+        }
+    };
+}
+w_bin!(Add, add, AddAssign, add_assign, 1);
+w_bin!(BitAnd, bitand, BitAndAssign, bitand_assign, 2);
+w_bin!(BitOr, bitor, BitOrAssign, bitor_assign, 3);
+w_bin!(BitXor, bitxor, BitXorAssign, bitxor_assign, 4);
+w_bin!(Div, div, DivAssign, div_assign, 5);
+w_bin!(Mul, mul, MulAssign, mul_assign, 6);
+w_bin!(Rem, rem, RemAssign, rem_assign, 7);
+w_bin!(Shl, shl, ShlAssign, shl_assign, 8);
+w_bin!(Shr, shr, ShrAssign, shr_assign, 9);
+w_bin!(Sub, sub, SubAssign, sub_assign, 10);
+macro_rules! w_un {
+    ($tr:ident, $f:ident, $code:expr) => {
+        impl core::ops::$tr for W {
+            type Output = W;
+            fn $f(self) -> W {
+                wbin($code, self.0, 0)
+            }
+        }
+        impl<'a> core::ops::$tr for &'a W {
+            type Output = W;
+            fn $f(self) -> W {
+                wbin($code, self.0, 0)
+            }
+        }
+    };
+}
+w_un!(Neg, neg, 40);
+w_un!(Not, not, 41);
